@@ -14,7 +14,7 @@ import ast
 from typing import Dict, List, Optional, Tuple
 
 from ..model import Program, AnalysisError, FuncInfo, walk_local, dotted
-from ..report import RuleResult
+from ..report import RuleResult, guard
 from .usertruth import user_truth
 from ..astutil import src, site, calls_in, call_name, is_self_attr, is_super_call, kwarg, const_value
 from ..callgraph import self_closure
@@ -649,4 +649,4 @@ def _rel_edges(prog):
 
 
 def run(prog: Program, tier: str) -> List[RuleResult]:
-    return [_rel_edges(prog), _sg_purge(prog), pd_field(prog), pd_first_assign(prog), pd_closure(prog), pd_owner(prog), pd_supers(prog), _mc_eq(prog), pd_replace(prog), pd_init(prog), user_truth(prog, ["property_descriptor.property_descriptor", "property_descriptor.monitored_container", "property_descriptor.property_descriptor_relation"], 2)]
+    return [guard(lambda: _rel_edges(prog)), guard(lambda: _sg_purge(prog)), guard(lambda: pd_field(prog)), guard(lambda: pd_first_assign(prog)), guard(lambda: pd_closure(prog)), guard(lambda: pd_owner(prog)), guard(lambda: pd_supers(prog)), guard(lambda: _mc_eq(prog)), guard(lambda: pd_replace(prog)), guard(lambda: pd_init(prog)), guard(lambda: user_truth(prog, ["property_descriptor.property_descriptor", "property_descriptor.monitored_container", "property_descriptor.property_descriptor_relation"], 2))]
